@@ -176,6 +176,12 @@ class Extractor:
             rules.append('R5')
         if re.search(r'\*const\b|\*mut\b|transmute', body):
             raise Unsupported('raw pointer / transmute outside the R5 idiom')
+        # R12 inference hint: `x.view_bits()` -> `x.view_bits::<Order>()`; the shim's Bs is not generic in the
+        # bit order (the crate fixes `type Order = Lsb0`), so the order cannot be inferred from the target type
+        new = re.sub(r'\.view_bits\(\)', '.view_bits::<Order>()', body)
+        if new != body:
+            rules.append('R12')
+            body = new
         # R7 ref patterns in Bound matches
         new = re.sub(r'Bound::(Included|Excluded)\(&(\w+)\)\s*=>\s*\2\b', r'Bound::\1(\2) => *\2', body)
         if new != body:
